@@ -83,11 +83,13 @@ def run(eng, ctx):
         if e.kind != "call" or e.term[2] != ("builtin", "getattr") or len(e.term[3]) < 2 or e.term[3][0] != msgp:
             continue
         name = e.term[3][1]
-        if name[0] != "fstr":
+        if name[0] != "fstr" and not (name[0] == "bin" and name[1] == "+"):
             continue
-        parts = name[1]
-        if len(parts) == 3 and parts[0][0] == "fmt" and is_const(parts[1]) and parts[2][0] == "fmt":
-            src, idx = parts[0][1], parts[2][1]
+        from .util import strparts
+
+        parts = strparts(name)  # f"{attr}_{i:02d}", attr + f"_{i:02d}", attr + "_" + f"{i:02d}" alike
+        if len(parts) == 3 and parts[0][0] not in ("const",) and is_const(parts[1]) and parts[2][0] == "fmt":
+            src, idx = (parts[0][1] if (parts[0][0] == "fmt" and parts[0][2] == "" and parts[0][3] in (-1, 115)) else parts[0]), parts[2][1]
             src_names = None
             if src[0] == "elem" and src[1][0] == "list":
                 src_names = [x[1] for x in src[1][1] if is_const(x)]
@@ -384,7 +386,10 @@ def _structure_msm(eng, ctx, pm, se, msgp, probes, nsat, ncell, gnssmap):
             continue
         outer, inner = eg.loops
         name_term = eg.term[3][1]
-        attr_elem = name_term[1][0][1]
+        from .util import strparts
+
+        p0 = strparts(name_term)[0]
+        attr_elem = p0[1] if p0[0] == "fmt" else p0
         # the entry dict: one item store per probed attribute
         sets = [e for e in se.effects if e.kind == "setitem" and e.loops == eg.loops and e.term == eg.term]
         ok1 = len(sets) == 1 and sets[0].target[0] == "item" and sets[0].target[2] == attr_elem and sets[0].target[1][0] == "loop" and sets[0].target[1][1] == inner
@@ -478,7 +483,9 @@ def _structure_harmonics(eng, ctx, ph, sh, mp, facts, coeffs):
     d1 = [t for t in hts if t[0] == "call" and t[2] == ("builtin", "getattr") and t[3][0] == mp]
     for t in d1:
         nm = t[3][1]
-        fmts_ = [p_ for p_ in nm[1] if p_[0] == "fmt"] if nm[0] == "fstr" else []
+        from .util import strparts
+
+        fmts_ = [p_ for p_ in strparts(nm) if p_[0] == "fmt"] if (nm[0] == "fstr" or (nm[0] == "bin" and nm[1] == "+")) else []
         ctx.check(len(fmts_) == 1 and fmts_[0][1] == ("bin", "+", lyr, ("const", 1)), "C18.D9", ph.qualname, "layer height attribute name", expected="<height field>_<layer + 1>", found=show(nm)[:70], **eng.loc(ph, lo.get("node", ph.node)))
     ctx.check(len(hts) == 1 and len(d1) == 1, "C18.D9", ph.qualname, "layer height entry", expected="'Layer Height' -> getattr(msg, <height field of this layer>) once per layer", found="; ".join(show(t)[:50] for t in hts) or "no 'Layer Height' entry", **eng.loc(ph, lo.get("node", ph.node)))
     # coefficient lists and probes
